@@ -18,7 +18,8 @@
 (***************************************************************************)
 EXTENDS Naturals, Sequences, FiniteSets, TLC
 
-CONSTANTS Mech,      \* [eq |-> "content" | "dims" | "memo"]
+CONSTANTS Mech,      \* [eq |-> "content" | "dims" | "memo" | "latfirst" | "coords"]
+          RouteSel,  \* which construction routes are explored (subset of Routes)
           MaxLen,    \* histories of at most this many steps
           Inits      \* which initial contents of object 2 are explored (subset of InitKinds)
 
@@ -27,13 +28,18 @@ Objs == {1, 2}
 \* content-preserving things a caller may do to one operand before comparing
 \* (lazy derivations add variables and dimensions to the object's dataset)
 Touches == { "n_edge", "face_edge_connectivity", "bounds", "face_areas", "node_x", "face_lon",
-             "n_nodes_per_face", "normalize", "face_centers", "to_gdf" }
+             "n_nodes_per_face", "normalize", "face_centers", "to_gdf", "node_lon", "node_lat" }
+\* how both grids were constructed: from longitudes / latitudes, or from Cartesian corner coordinates only
+\* (longitudes and latitudes are then themselves derived lazily, on the first read of either)
+Routes == { "lonlat", "xyz" }
 \* those that add a dimension to the dataset (Grid.sizes grows)
 DimAdding == { "n_edge", "face_edge_connectivity", "bounds", "n_nodes_per_face" }
 
 Fields    == { "lon", "lat", "conn" }
 Hows      == { "setter", "inplace" }
-CopyHows  == { "copy", "deepcopy" }
+\* "isel_all": the grid obtained by selecting every face, in order (a derived grid with the same content
+\* except that nodes no face uses are gone)
+CopyHows  == { "copy", "deepcopy", "isel_all" }
 InitKinds == { "same", "lon", "lat", "conn", "spec", "n_node", "n_face" }
 
 Content == [ spec : {"A", "B"}, lon : 0..1, lat : 0..1, conn : 0..1, nn : 0..1, nf : 0..1 ]
@@ -57,9 +63,11 @@ VARIABLES cont,     \* [Objs -> Content]
           memo,     \* [Objs -> Content \cup {<<>>}]  content at the time of the first comparison (a cached digest)
           last,     \* the last step: [act, args, want, ans]
           hist,     \* the steps so far (for generation)
-          init2     \* how object 2 started (an element of InitKinds)
+          init2,    \* how object 2 started (an element of InitKinds)
+          route,    \* how both objects were constructed (an element of Routes)
+          prov      \* [Objs -> [latFirst, sliced, edited : BOOLEAN]]  provenance an implementation could let leak
 
-vars == << cont, derived, cmp, memo, last, hist, init2 >>
+vars == << cont, derived, cmp, memo, last, hist, init2, route, prov >>
 
 NoMemo == <<>>
 
@@ -67,6 +75,11 @@ Step(act, args, want, ans) == [ act |-> act, args |-> args, want |-> want, ans |
 
 Init ==
   /\ init2 \in Inits
+  /\ route \in RouteSel
+  \* the corner-coordinate constructor numbers the nodes itself, by position: only grids that start with the
+  \* same content are numbered alike, so that route starts from an equal pair
+  /\ (route = "xyz") => (init2 = "same")
+  /\ prov = [ o \in Objs |-> [ latFirst |-> FALSE, sliced |-> FALSE, edited |-> FALSE ] ]
   /\ cont = [ o \in Objs |-> IF o = 1 THEN C0 ELSE InitContent(init2) ]
   /\ derived = [ o \in Objs |-> {} ]
   /\ cmp = [ o \in Objs |-> FALSE ]
@@ -78,10 +91,13 @@ Log(act, args, want, ans) ==
   /\ last' = Step(act, args, want, ans)
   /\ hist' = Append(hist, << act, args, want >>)
   /\ init2' = init2
+  /\ route' = route
 
 \* content-preserving operation on one operand
 Touch(o, t) ==
   /\ derived' = [ derived EXCEPT ![o] = @ \cup {t} ]
+  /\ prov' = [ prov EXCEPT ![o].latFirst = @ \/ (route = "xyz" /\ t = "node_lat" /\ ~cmp[o]
+                                                   /\ derived[o] \cap { "node_lon", "node_lat", "bounds", "face_areas", "to_gdf" } = {}) ]
   /\ Log("Touch", << o, t >>, TRUE, TRUE)
   /\ UNCHANGED << cont, cmp, memo >>
 
@@ -91,14 +107,19 @@ Edit(o, f, how) ==
   /\ cont' = [ cont EXCEPT ![o] = CASE f = "lon"  -> [ @ EXCEPT !.lon  = 1 - @ ]
                                      [] f = "lat"  -> [ @ EXCEPT !.lat  = 1 - @ ]
                                      [] f = "conn" -> [ @ EXCEPT !.conn = 1 - @ ] ]
+  /\ prov' = [ prov EXCEPT ![o].edited = TRUE ]
   /\ Log("Edit", << o, f, how >>, TRUE, TRUE)
   /\ UNCHANGED << derived, cmp, memo >>
 
 \* the other object is replaced by a copy of `o`
 CopyOf(o, how) ==
   LET p == 3 - o IN
-  /\ cont' = [ cont EXCEPT ![p] = cont[o] ]
-  /\ derived' = [ derived EXCEPT ![p] = derived[o] ]
+  \* what a grid derives after a coordinate or connectivity entry was overwritten is outside this property
+  \* (stale derived tables): a selection is only taken from a grid that was never edited
+  /\ (how = "isel_all") => ~prov[o].edited
+  /\ cont' = [ cont EXCEPT ![p] = IF how = "isel_all" THEN [ cont[o] EXCEPT !.nn = 0 ] ELSE cont[o] ]
+  /\ derived' = [ derived EXCEPT ![p] = IF how = "isel_all" THEN {} ELSE derived[o] ]
+  /\ prov' = [ prov EXCEPT ![p] = [ latFirst |-> prov[o].latFirst, sliced |-> (how = "isel_all") \/ prov[o].sliced, edited |-> prov[o].edited ] ]
   /\ cmp' = [ cmp EXCEPT ![p] = FALSE ]
   \* a deep copy of the object carries whatever the object cached
   /\ memo' = [ memo EXCEPT ![p] = IF how = "deepcopy" THEN memo[o] ELSE NoMemo ]
@@ -110,13 +131,17 @@ Answer(x, y, m) ==
     [] Mech.eq = "dims"    -> /\ (derived[x] \cap DimAdding) = (derived[y] \cap DimAdding)
                               /\ Eq(cont[x], cont[y])
     [] Mech.eq = "memo"    -> IF m[x] # NoMemo /\ m[x] = m[y] THEN TRUE ELSE Eq(cont[x], cont[y])
+    \* longitudes derived from Cartesian coordinates are left unfolded when the latitude is read first
+    [] Mech.eq = "latfirst" -> Eq(cont[x], cont[y]) /\ prov[x].latFirst = prov[y].latFirst
+    \* a sliced grid's variables carry extra coordinates, and the comparison looks at them
+    [] Mech.eq = "coords"   -> Eq(cont[x], cont[y]) /\ prov[x].sliced = prov[y].sliced
 
 Compare(x, y) ==
   LET m == [ o \in Objs |-> IF o \in {x, y} /\ memo[o] = NoMemo THEN cont[o] ELSE memo[o] ] IN
   /\ memo' = m
   /\ cmp' = [ o \in Objs |-> cmp[o] \/ o \in {x, y} ]
   /\ Log("Compare", << x, y >>, Eq(cont[x], cont[y]), Answer(x, y, m))
-  /\ UNCHANGED << cont, derived >>
+  /\ UNCHANGED << cont, derived, prov >>
 
 Next ==
   /\ Len(hist) < MaxLen
@@ -139,20 +164,25 @@ Refines == last.ans = last.want
 \* laws that follow: reflexive whatever was done to the object, symmetric, a fresh copy is equal
 Reflexive == \A o \in Objs : Answer(o, o, memo)
 Symmetric == Answer(1, 2, memo) = Answer(2, 1, memo)
-CopyEqual == (last.act = "Copy") => Answer(1, 2, memo)
+CopyEqual == (last.act = "Copy" /\ last.args[2] # "isel_all") => Answer(1, 2, memo)
+\* selecting every face gives an equal grid unless a node was unused
+SliceAllEqual == (last.act = "Copy" /\ last.args[2] = "isel_all") => (Answer(1, 2, memo) = (cont[last.args[1]].nn = 0))
 
 \* an edit of one operand of an equal pair makes the pair unequal
 EditFlips == [][ (last'.act = "Edit" /\ Eq(cont[1], cont[2])) => ~Eq(cont'[1], cont'[2]) ]_vars
 
 \* generation: complete histories that end in a comparison are printed with their expected answers
 Emit ==
-  (Len(hist) = MaxLen /\ hist[Len(hist)][1] = "Compare") => PrintT(<< "H", init2, hist >>)
+  (Len(hist) = MaxLen /\ hist[Len(hist)][1] = "Compare") => PrintT(<< "H", init2, route, hist >>)
 
 \* for -simulate: every behaviour of full length, whatever its last step
-EmitAny == (Len(hist) = MaxLen) => PrintT(<< "H", init2, hist >>)
+EmitAny == (Len(hist) = MaxLen) => PrintT(<< "H", init2, route, hist >>)
 
 MechIntended == [ eq |-> "content" ]
 MechDims     == [ eq |-> "dims" ]
 MechMemo     == [ eq |-> "memo" ]
+MechLatFirst == [ eq |-> "latfirst" ]
+MechCoords   == [ eq |-> "coords" ]
+AllRoutes    == Routes
 AllInits     == InitKinds
 =============================================================================
